@@ -14,7 +14,7 @@ import (
 func init() {
 	register("C08", &ruleSet{
 		run:    runC08,
-		floors: map[string]int{"O1": 2, "O2": 1, "O3": 2, "O4": 3, "O5": 3, "O6": 3},
+		floors: map[string]int{"O1": 2, "O2": 1, "O3": 2, "O4": 3, "O5": 3, "O6": 3, "O7": 3},
 		explain: "Decides necessary sign conditions of 'more latency never means more limit' for Vegas and Gradient (Gradient2 is declined: its long-term average also absorbs the " +
 			"sample, so the quotient long/short has mixed polarity syntactically; threshold ordering, rounding, probe and baseline-lowering samples are excluded): (O1) polarity: " +
 			"the control signal is monotone in the sample RTT in the right direction - Vegas's queue estimate is non-decreasing in rtt, and on every Gradient path the stored " +
@@ -180,6 +180,8 @@ func runC08(p *Prog, l *Ledger) {
 	importObligations(p, l, "C04", "O4", func(o *Obligation) bool {
 		return o.Rule == "O1" && (strings.Contains(o.Key, "VegasLimit") || strings.Contains(o.Key, "GradientLimit") || strings.Contains(o.Key, "Gradient2Limit"))
 	})
+	l.Rule("O7", "the baseline is not forgotten because of the sample's RTT: a reset or replacement of a baseline measurement on the sample path is not control-dependent on a test that reads the sample's RTT together with the algorithm's state (the slower twin would be judged against a fresh baseline, the faster one against the old one)")
+	c08ResetIndependentOfRTT(p, l)
 	smoothSeen := map[string]bool{}
 	for _, af := range algoFuncs(p, l) {
 		name := af.A.T.Obj().Name()
@@ -735,4 +737,178 @@ func regionVerb(class string) string {
 		return "lowered"
 	}
 	return "left unchanged"
+}
+
+// c08Controllers: the conditional branches the execution of block b depends on (transitively): an If with one successor
+// from which b is unavoidable and another from which it can be avoided.
+func c08Controllers(f *ssa.Function, b *ssa.BasicBlock) []*ssa.If {
+	isExit := func(x *ssa.BasicBlock) bool {
+		if len(x.Instrs) == 0 {
+			return false
+		}
+		switch x.Instrs[len(x.Instrs)-1].(type) {
+		case *ssa.Return, *ssa.Panic:
+			return true
+		}
+		return false
+	}
+	// avoidable(s, t): some way from s to an exit does not pass t
+	avoidable := func(s, t *ssa.BasicBlock) bool {
+		if s == t {
+			return false
+		}
+		seen := map[*ssa.BasicBlock]bool{t: true}
+		stack := []*ssa.BasicBlock{s}
+		for len(stack) > 0 {
+			x := stack[len(stack)-1]
+			stack = stack[:len(stack)-1]
+			if seen[x] {
+				continue
+			}
+			seen[x] = true
+			if isExit(x) {
+				return true
+			}
+			stack = append(stack, x.Succs...)
+		}
+		return false
+	}
+	var out []*ssa.If
+	done := map[*ssa.BasicBlock]bool{}
+	work := []*ssa.BasicBlock{b}
+	for len(work) > 0 {
+		t := work[len(work)-1]
+		work = work[:len(work)-1]
+		if done[t] {
+			continue
+		}
+		done[t] = true
+		for _, a := range f.Blocks {
+			if len(a.Instrs) == 0 || len(a.Succs) != 2 || a == f.Recover {
+				continue
+			}
+			iff, ok := a.Instrs[len(a.Instrs)-1].(*ssa.If)
+			if !ok {
+				continue
+			}
+			un0, un1 := !avoidable(a.Succs[0], t), !avoidable(a.Succs[1], t)
+			if un0 != un1 {
+				out = append(out, iff)
+				work = append(work, a)
+			}
+		}
+	}
+	return out
+}
+
+// c08DependsOn: v is computed from one of the given values (through arithmetic, conversions, calls that take it as an
+// argument, merges).
+func c08DependsOn(v ssa.Value, src map[ssa.Value]bool, seen map[ssa.Value]bool) bool {
+	if v == nil || seen[v] {
+		return false
+	}
+	seen[v] = true
+	if src[v] {
+		return true
+	}
+	switch x := v.(type) {
+	case *ssa.BinOp:
+		return c08DependsOn(x.X, src, seen) || c08DependsOn(x.Y, src, seen)
+	case *ssa.UnOp:
+		if x.Op == token.MUL {
+			return false // a load: the algorithm's state
+		}
+		return c08DependsOn(x.X, src, seen)
+	case *ssa.Convert:
+		return c08DependsOn(x.X, src, seen)
+	case *ssa.ChangeType:
+		return c08DependsOn(x.X, src, seen)
+	case *ssa.MakeInterface:
+		return c08DependsOn(x.X, src, seen)
+	case *ssa.Extract:
+		return c08DependsOn(x.Tuple, src, seen)
+	case *ssa.Phi:
+		for _, e := range x.Edges {
+			if c08DependsOn(e, src, seen) {
+				return true
+			}
+		}
+	case *ssa.Call:
+		for _, a := range x.Call.Args {
+			if c08DependsOn(a, src, seen) {
+				return true
+			}
+		}
+	}
+	return false
+}
+
+func c08ResetIndependentOfRTT(p *Prog, l *Ledger) {
+	for _, a := range c04Algos(p, l) {
+		name := a.T.Obj().Name()
+		if name != "VegasLimit" && name != "GradientLimit" && name != "Gradient2Limit" {
+			continue
+		}
+		on := p.Method(a.T, "OnSample")
+		if on == nil || len(on.Params) < 5 {
+			continue
+		}
+		var bad []string
+		nreset, nfn := 0, 0
+		var scan func(f *ssa.Function, src map[ssa.Value]bool, depth int, via string)
+		visited := map[*ssa.Function]bool{}
+		scan = func(f *ssa.Function, src map[ssa.Value]bool, depth int, via string) {
+			if f == nil || f.Blocks == nil || visited[f] {
+				return
+			}
+			visited[f] = true
+			nfn++
+			allInstrs(f, func(ins ssa.Instruction) {
+				isReset := false
+				switch x := ins.(type) {
+				case *ssa.Call:
+					cc := x.Common()
+					if cc.IsInvoke() && cc.Method.Name() == "Reset" {
+						isReset = true
+					} else if c := p.CallOf(x); c != nil && c.Static != nil && p.InModule(c.Static) && depth > 0 {
+						if c.Static.Name() == "Reset" && c.Recv != nil {
+							isReset = true
+						} else {
+							sub := map[ssa.Value]bool{}
+							for i, arg := range x.Call.Args {
+								if i < len(c.Static.Params) && c08DependsOn(arg, src, map[ssa.Value]bool{}) {
+									sub[c.Static.Params[i]] = true
+								}
+							}
+							if len(sub) > 0 {
+								scan(c.Static, sub, depth-1, via+p.Key(f)+" -> ")
+							}
+						}
+					}
+				case *ssa.Store:
+					if fa, ok := x.Addr.(*ssa.FieldAddr); ok {
+						if _, isIface := x.Val.Type().Underlying().(*types.Interface); isIface {
+							if fr, _, ok := fieldOf(fa); ok && fr.Type != nil && types.Identical(fr.Type, a.T) {
+								isReset = true
+							}
+						}
+					}
+				}
+				if !isReset {
+					return
+				}
+				nreset++
+				for _, iff := range c08Controllers(f, ins.Block()) {
+					if c07InputTest(iff.Cond, 4) {
+						continue // input validation: the property speaks about valid samples
+					}
+					if c08DependsOn(iff.Cond, src, map[ssa.Value]bool{}) {
+						bad = append(bad, fmt.Sprintf("%s: the baseline is reset in %s%s behind a test that reads the sample's RTT (%s at %s)", p.At(ins), via, p.Key(f), valueString(iff.Cond), p.At(iff)))
+					}
+				}
+			})
+		}
+		scan(on, map[ssa.Value]bool{on.Params[2]: true}, 3, "")
+		l.Check(len(bad) == 0, "O7", p.Key(on)+"/baseline-reset", p.FuncPos(on), fmt.Sprintf("%d function(s) on the sample path that receive the RTT, %d baseline reset site(s), none decided by the RTT", nfn, nreset), "two samples that differ only in their RTT can leave different baselines behind: the slower one can end with the higher estimate", bad...)
+	}
 }
